@@ -33,7 +33,7 @@ pub fn multi_file_project(n: usize) -> Project {
         };
         files.push((path, s));
     }
-    Project { files }
+    Project { files, links: vec![] }
 }
 
 pub fn mappings(m: usize) -> Vec<(String, String)> {
